@@ -24,6 +24,10 @@ pub struct AuxCase {
     pub fault: String,
     /// foreign buffers with a valid MAC for the same seed are outside the statement: no verdict on equality
     pub verdict_on_equality: bool,
+    /// fault sequence: the intact buffer of this key is used by the same operation first (same process),
+    /// then the fault occurs, then the faulty buffer is used
+    #[serde(default)]
+    pub after_valid: bool,
 }
 
 type BaseKey = (Hid, Vec<Param>, String, u64, Entry, u8);
@@ -62,6 +66,17 @@ pub fn aux_eval(c: &AuxCase) -> Vec<Viol> {
     let mut buf = hex::decode(&c.aux).unwrap_or_default();
     let mut v = vec![];
     let fclass = c.fault.split('@').next().unwrap_or("").to_string();
+    let described = AuxCase { fault: if c.after_valid { format!("{}, right after the intact buffer was used in the same process", c.fault) } else { c.fault.clone() }, ..c.clone() };
+    let c = &described;
+    if c.after_valid {
+        let h0 = m.lms_h(c.params[0].lms).unwrap();
+        let mut intact = m.aux_build(&c.params, &seed, m.aux_layout(h0, 1 << 22).1);
+        if c.op == "keygen" {
+            let _ = lib_api::keygen(c.hid, &c.params, &seed, Some(&mut intact));
+        } else {
+            let _ = lib_api::sign(c.hid, &m.make_blob(c.counter, &c.params, &seed), b"aux message", Cb::Accept, Some(&mut intact), c.entry);
+        }
+    }
     match c.op.as_str() {
         "keygen" => {
             let base = base_keygen(c.hid, &c.params, &c.seed, &seed);
@@ -247,7 +262,7 @@ pub fn run_c10(ctx: &Ctx) -> (&'static str, Map<String, Value>) {
         total_cases.fetch_add(all.len() as u64, std::sync::atomic::Ordering::Relaxed);
         all.par_iter().for_each(|c| {
             let v = aux_eval(c);
-            let cls = format!("{}:{}:{}", c.op, c.fault.split('@').next().unwrap_or(""), if v.is_empty() { "same-as-no-aux" } else { "DIFFERS/PANIC" });
+            let cls = format!("{}{}:{}:{}", c.op, if c.after_valid { " after use of the intact buffer" } else { "" }, c.fault.split('@').next().unwrap_or(""), if v.is_empty() { "same-as-no-aux" } else { "DIFFERS/PANIC" });
             *classes.lock().unwrap().entry(cls).or_insert(0) += 1;
             for x in v {
                 ctx.report(&x, || json!({"engine":"c10","case":c}));
@@ -291,23 +306,85 @@ pub fn run_c10(ctx: &Ctx) -> (&'static str, Map<String, Value>) {
         fresh_lens.sort();
         fresh_lens.dedup();
         for l in fresh_lens {
-            all.push(AuxCase { hid: *hid, params: params.clone(), seed: hex::encode(&seed), counter: 0, aux: hex::encode(vec![0u8; l]), op: "keygen".into(), entry: Entry::Bytes, fault: format!("fresh-zero@{}", l), verdict_on_equality: true });
-            all.push(AuxCase { hid: *hid, params: params.clone(), seed: hex::encode(&seed), counter: counters[0], aux: hex::encode(vec![0u8; l]), op: "sign".into(), entry: Entry::Bytes, fault: format!("fresh-zero@{}", l), verdict_on_equality: true });
+            all.push(AuxCase { hid: *hid, params: params.clone(), seed: hex::encode(&seed), counter: 0, aux: hex::encode(vec![0u8; l]), op: "keygen".into(), entry: Entry::Bytes, fault: format!("fresh-zero@{}", l), verdict_on_equality: true, after_valid: false });
+            all.push(AuxCase { hid: *hid, params: params.clone(), seed: hex::encode(&seed), counter: counters[0], aux: hex::encode(vec![0u8; l]), op: "sign".into(), entry: Entry::Bytes, fault: format!("fresh-zero@{}", l), verdict_on_equality: true, after_valid: false });
         }
         // every bit: 4-leaf top trees always, SHA-256 single-level H5 in the thorough tier; otherwise one
         // (rotating) bit per byte of the cached nodes and every bit of level word and MAC
         let all_bits = h0 <= 2 || (th && !hid.shake() && params.len() == 1 && h0 <= 5);
         for (name, buf, verdict) in faults(&m, &valid, &other_seed_buf, &other_params_buf, &half, th, all_bits) {
-            all.push(AuxCase { hid: *hid, params: params.clone(), seed: hex::encode(&seed), counter: 0, aux: hex::encode(&buf), op: "keygen".into(), entry: Entry::Bytes, fault: name.clone(), verdict_on_equality: verdict });
+            all.push(AuxCase { hid: *hid, params: params.clone(), seed: hex::encode(&seed), counter: 0, aux: hex::encode(&buf), op: "keygen".into(), entry: Entry::Bytes, fault: name.clone(), verdict_on_equality: verdict, after_valid: false });
+            // the fault happens AFTER the intact buffer was used in this process (nothing remembered from
+            // that use may vouch for the altered buffer)
+            let seq = !name.starts_with("garbage") && !name.starts_with("all-zero") && (!name.starts_with("bitflip") || name.ends_with(":0") || all_bits && h0 <= 2) && (!name.starts_with("truncate") || h0 <= 2 || name.len() % 3 == 0);
+            if seq {
+                for op in ["keygen", "sign"] {
+                    all.push(AuxCase { hid: *hid, params: params.clone(), seed: hex::encode(&seed), counter: counters[0], aux: hex::encode(&buf), op: op.into(), entry: Entry::Bytes, fault: name.clone(), verdict_on_equality: verdict, after_valid: true });
+                }
+            }
             for (ci, c) in counters.iter().enumerate() {
                 // bit flips: all of them at the first counter, one bit per byte at the others
                 if ci > 0 && name.starts_with("bitflip") && (!name.ends_with(":0") || h0 > 2) && !th {
                     continue;
                 }
                 let entry = if ci % 2 == 0 { Entry::Bytes } else { Entry::Key };
-                all.push(AuxCase { hid: *hid, params: params.clone(), seed: hex::encode(&seed), counter: *c, aux: hex::encode(&buf), op: "sign".into(), entry, fault: name.clone(), verdict_on_equality: verdict });
+                all.push(AuxCase { hid: *hid, params: params.clone(), seed: hex::encode(&seed), counter: *c, aux: hex::encode(&buf), op: "sign".into(), entry, fault: name.clone(), verdict_on_equality: verdict, after_valid: false });
             }
         }
+        run_cases(all);
+    }
+    // tall top trees: cached levels of 64 KiB and more (level sizes that do not fit 16 bits, buffers
+    // beyond 64 KiB); W1 keeps the 32768 leaves affordable. A reduced fault list per buffer.
+    let tall: Vec<Hid> = if th { vec![Hid::S32, Hid::S16, Hid::S24] } else { vec![Hid::S32] };
+    let mut tall_cfgs = vec![];
+    for hid in tall {
+        let params = vec![p(1, 15)];
+        let m = Model::new(hid);
+        let n = hid.n();
+        let seed = det_bytes(ctx.seed, &format!("c10-tall:{}", hid.name()), n);
+        let counters = [0u64, 32767];
+        let mut all: Vec<AuxCase> = vec![];
+        let mk = |op: &str, counter: u64, buf: &[u8], fault: String| AuxCase { hid, params: params.clone(), seed: hex::encode(&seed), counter, aux: hex::encode(buf), op: op.into(), entry: Entry::Bytes, fault, verdict_on_equality: true, after_valid: false };
+        let mut thresholds = vec![];
+        for lvl in [9u32, 11, 13] {
+            let t = 4 + n + (n << lvl);
+            if t <= 300_000 {
+                thresholds.push(t);
+            }
+        }
+        for t in &thresholds {
+            for l in [t - 1, *t, t + 1] {
+                all.push(mk("keygen", 0, &vec![0u8; l], format!("fresh-zero@{}", l)));
+            }
+            all.push(mk("sign", 0, &vec![0u8; *t], format!("fresh-zero@{}", t)));
+        }
+        let biggest = *thresholds.last().unwrap();
+        for max_len in [biggest, biggest + (n << 9) + (n << 7)] {
+            let valid = m.aux_build(&params, &seed, max_len);
+            let l = valid.len();
+            let mut fl: Vec<(String, Vec<u8>)> = vec![("valid".into(), valid.clone())];
+            for (name, byte, bit) in [("level-word", 1usize, 3u8), ("level-word", 2, 0), ("nodes", 4 + 5, 2), ("nodes", l - n - 3, 7), ("mac", l - 1, 0)] {
+                let mut b = valid.clone();
+                b[byte] ^= 1 << bit;
+                fl.push((format!("bitflip-{}@{}:{}", name, byte, bit), b));
+            }
+            fl.push((format!("truncate@{}", l - 1), valid[..l - 1].to_vec()));
+            let mut b = valid.clone();
+            b.push(0);
+            fl.push(("pad-00@1".into(), b));
+            let mut b = valid.clone();
+            for i in 0..n {
+                b[4 + i] = 0x5a ^ (i as u8);
+            }
+            fl.push(("planted-node@4".into(), b));
+            for (name, buf) in fl {
+                all.push(mk("keygen", 0, &buf, name.clone()));
+                for c in counters {
+                    all.push(mk("sign", c, &buf, name.clone()));
+                }
+            }
+        }
+        tall_cfgs.push(format!("{} {:?} buffers up to {} bytes, {} cases", hid.name(), params, biggest + (n << 9) + (n << 7), all.len()));
         run_cases(all);
     }
     // every aux mode at every state of whole lifetimes (Engine A): a fresh zero buffer, the valid buffer,
@@ -344,11 +421,12 @@ pub fn run_c10(ctx: &Ctx) -> (&'static str, Map<String, Value>) {
     m.insert("transitions".into(), json!(2 * total));
     m.insert("traces_validated_against_impl".into(), json!(total));
     m.insert("configurations".into(), json!(cfgs.iter().map(|(h, p, c)| format!("{} {:?} counters {:?}", h.name(), p, c)).collect::<Vec<_>>()));
+    m.insert("tall_top_tree_configurations".into(), json!(tall_cfgs));
     m.insert("outcome_classes".into(), json!(*classes.lock().unwrap()));
     m.insert("lifecycle_configurations".into(), json!(life_labels));
     m.insert("lifecycle_states".into(), json!(life_agg.states.load(std::sync::atomic::Ordering::Relaxed)));
     m.insert("lifecycle_transitions".into(), json!(life_agg.transitions.load(std::sync::atomic::Ordering::Relaxed)));
-    m.insert("rule".into(), json!("per configuration: the valid buffer (model-built, compared with what keygen writes) under every single-bit flip, truncation to every length, padding 1..n+4, marker zeroed, foreign buffers, garbage patterns, the half-initialised buffer left by sign on a fresh buffer, planted wrong nodes; fresh zero buffers at every level-boundary length; each faulty buffer is driven through keygen and through sign followed by a second sign with the buffer as left behind; every run is compared with the aux-less run"));
+    m.insert("rule".into(), json!("per configuration: the valid buffer (model-built, compared with what keygen writes) under every single-bit flip, truncation to every length, padding 1..n+4, marker zeroed, foreign buffers, garbage patterns, the half-initialised buffer left by sign on a fresh buffer, planted wrong nodes; fresh zero buffers at every level-boundary length; each faulty buffer is driven through keygen and through sign followed by a second sign with the buffer as left behind, and (two-step fault sequence) through keygen / sign right after the same operation used the intact buffer in the same process; every run is compared with the aux-less run"));
     m.insert("exhaustive".into(), json!(true));
     ("fault_enumeration", m)
 }
